@@ -5,7 +5,7 @@
 # On success stores it as /verif/seeded/<seed-id>/ (patch.diff, demo, notes.md, meta.json skeleton).
 set -u
 PROP="$1"; ID="$2"; PKG="$3"; RACE="${4:-}"
-W="/tmp/seed-$PROP"
+W="${SEEDW:-/tmp/seed-$PROP}"
 OUT="/tmp/seedout-$ID"
 VERIF="$(cd "$(dirname "$0")/.." && pwd)"
 export GOFLAGS=-mod=mod GOPROXY=off
